@@ -1,6 +1,17 @@
 from . import has_class
-CFG = {"harness": ["v1"], "functional": [],
-       "required_classes": ["compile", "copies", "selection"],
-       "signatures": {"array-of-references-field": has_class("sig:array-of-references-field")},
-       "timeout": {"quick": 1500, "thorough": 6000},
-       "rule": "wip", "manifest": {"text": "wip", "note": "wip"}}
+
+CFG = {
+    "harness": ["v1"],
+    "functional": [],
+    "required_classes": ["compile", "copies", "selection", "dc-pointer", "dc-slice", "dc-map", "dc-array", "dc-array-of-references", "dc-cross-package", "dc-named-interface", "dc-hand-written", "dc-package-tag", "dc-no-package-tag", "dc-type-opt-in", "dc-type-opt-out", "dc-self-pointer"],
+    "signatures": {"array-of-references-field": has_class("sig:array-of-references-field")},
+    "timeout": {"quick": 1500, "thorough": 6000},
+    "rule": 'generated packages (1-3, cross-package references) of exported struct / defined slice / defined map types over builtins, pointers, slices, maps with assignable keys, arrays (as struct fields; every other program also arrays of pointers/slices/maps), nested and recursive structs, named interfaces with DeepCopyObj methods, types with hand-written DeepCopy/DeepCopyInto that count their calls, package-level and type-level opt-in/opt-out tags; the REAL deepcopy-gen is run in process from the current tree, its output compiled with the input and a generated driver (go run), which for 60 (thorough: 300) random values per generated type checks reflect.DeepEqual (incl. nil vs empty), disjointness of all pointer/slice/map storage, mutate-copy-and-compare, hand-written methods called, and that exactly the expected types got DeepCopy functions; non-trivial = input longer than 12 characters',
+    "exhaustive": [],
+    "modelled": "the copy semantics of the generated code as a function on typed value trees (doStruct/doSlice/doMap/doPointer's decisions: assignment where the static type is assignable, fresh storage + recursive copy otherwise, arrays in struct fields by assignment). That the emitted Go text compiles and has this semantics is exercised (compiled and run), not modelled.",
+    "assumptions": ["hand-written DeepCopy/DeepCopyInto methods are correct deep copies (the property's own premise)"],
+    "manifest": {
+        "text": 'Coq theorems on the copy semantics: for every typed value without an array field of reference-typed elements the copy is equal after erasing locations (deep equality incl. nil vs empty) and shares no location with the original; a _refuted lemma exhibits the sharing for [1]*int (the recorded known finding). Tied to /repo each run: the real deepcopy-gen output is compiled and a reflection oracle checks equality, nil shape, storage disjointness and mutation independence on random values of every generated type, plus tag-driven selection and hand-written methods being called',
+        "note": "partial: 'compiles' and the semantics of the emitted text are exercised by compiling and running, the theorem is about the copy semantics the generator's decisions implement; KNOWN FINDING array-of-references-field (see KNOWN_FINDINGS.txt) is suppressed by signature only; trusted: Coq kernel, extraction, OCaml driver, Go harness, the Go toolchain compiling the generated code",
+    },
+}
